@@ -22,7 +22,9 @@ def payloads(tier):
     small = [dict(n=n, size=10, container=c, compression=None) for n in (1, 2, 4) for c in ('array', 'list', 'annotated-array', 'annotated-list')]
     small += [dict(n=3, size=10, container=c, compression='gzip') for c in ('array', 'list')]
     small += [dict(n=3, size=7, container='list', compression=None, vary=True), dict(n=2, size=0, container='list', compression=None)]
+    small += [dict(n=3, size=10, container=c, compression=None, preexisting=True) for c in ('array', 'list', 'annotated-list')]
     big = [dict(n=4, size=300000, container=c, compression=comp) for c in ('array', 'annotated-list') for comp in (None, 'gzip')]
+    big += [dict(n=3, size=300000, container='list', compression=None, preexisting=True)]
     if tier == 'thorough':
         small += [dict(n=6, size=25, container=c, compression='lzf') for c in ('array', 'list')]
         big += [dict(n=5, size=260000, container='list', compression=None), dict(n=3, size=800000, container='annotated-array', compression=None)]
@@ -36,7 +38,8 @@ def record_trace(tmp, pl, idx):
     if p.returncode != 0:
         raise tlc.MachineryError(f'writer failed without crash injection: {p.stderr[-1500:]}')
     calls = json.load(open(tr))
-    os.remove(out)
+    if os.path.exists(out):
+        os.remove(out)
     return calls
 
 
@@ -119,7 +122,8 @@ def run(ctx):
         jobs = []
         for idx, (pl, calls) in enumerate(zip(small + big, traces)):
             ncalls = len(calls)
-            points = list(range(0, ncalls + 1))
+            # with a pre-existing file the write has not begun before call 0 (the old file is legitimately still there)
+            points = list(range(1 if pl.get('preexisting') else 0, ncalls + 1))
             if pl['size'] > 1000 and ctx.tier == 'quick':
                 points = [p for p in points if p >= ncalls - 8 or p % 3 == 0]
             for cp in points:
@@ -139,7 +143,7 @@ def run(ctx):
         ctx.families.append(dict(name='crash-injection', records=n, rejected=len(bad), judge='Judge_C19',
                                  outcomes={o: sum(1 for r in crecs if r['outcome'] == o) for o in {r['outcome'] for r in crecs}}))
         ctx.add_samples([dict(family='crash-injection', record=crecs[len(crecs) // 2])], limit=1)
-        ctx.rule_parts.append('[writer-trace] storage-call sequences of real dump_signatures runs (both write paths, 1-6 signatures, with/without '
+        ctx.rule_parts.append('[writer-trace] storage-call sequences of real dump_signatures runs (both write paths, 1-6 signatures, with/without compression, onto a fresh path and onto a path already holding another signature file, '
                               'compression, empty signatures) replayed through the SigStore library model; [crash-injection] a writer subprocess '
                               'killed with os._exit immediately before each of its storage calls (every crash point for small payloads; every third '
                               'plus the last eight for multi-megabyte payloads in quick), the leftover file loaded with load_signatures; '
